@@ -570,6 +570,33 @@ func genConc(prop string, seed uint64, tier string) *ConcScenario {
 		g.c16Workload(sc, hot)
 	}
 	sc.Tier = tier
+	if prop == "C13" && g.r.Bool(0.06) {
+		// user functions that write to ANOTHER container of the same kind while
+		// both containers resize (only re-entering the same container is outside
+		// the guarantee)
+		sc.Other = true
+		for pi := range sc.Phases {
+			for t := range sc.Phases[pi].Tasks {
+				for i := range sc.Phases[pi].Tasks[t] {
+					op := &sc.Phases[pi].Tasks[t][i]
+					switch op.K {
+					case MCompute, MLoadOrCompute, CCompute, CGetOrCompute:
+						op.Other = 3 + g.r.Intn(6)
+					}
+				}
+			}
+			var prog []Op
+			for i := 0; i < 2+g.r.Intn(3); i++ {
+				filler++
+				if cacheFam {
+					prog = append(prog, Op{K: CGetOrCompute, Key: fillerBase + filler - 1, Val: g.val(), D: sentinelNoExp, Other: 3 + g.r.Intn(6)})
+				} else {
+					prog = append(prog, Op{K: MLoadOrCompute, Key: fillerBase + filler - 1, Val: g.val(), Other: 3 + g.r.Intn(6)})
+				}
+			}
+			sc.Phases[pi].Tasks = append(sc.Phases[pi].Tasks, prog)
+		}
+	}
 	if prop == "C13" && cacheFam && g.r.Bool(0.12) {
 		// a running clock (every reading is later than the last one) and, in half
 		// of these, a callback that re-arms what was evicted with a TTL of 1 ns:
